@@ -305,6 +305,8 @@ def finish(cid, mod, tier, seed, cases, results, t0, extra_viol=None, extra_cov=
         f"violations={len(new_viols)} known={sum(len(v) for v in known_hit.values())} inconclusive={len(inconcl)} "
         f"wall={ev['wall_s']}s verdict={verdict}"
     )
+    slow = sorted(((r.get("wall", 0.0), i) for i, r in enumerate(results)), reverse=True)[:3]
+    print(f"[{cid}] slowest cases: " + ", ".join(f"#{i}:{w:.0f}s" for w, i in slow))
     ck = ", ".join(f"{k}={int(v) if float(v).is_integer() else round(v,3)}" for k, v in sorted(counters.items())[:40])
     print(f"[{cid}] monitors: {ck}")
     if new_viols:
